@@ -140,6 +140,80 @@ where
     })
 }
 
+/// What a `SignalInfo` read from `bytes` prints as.
+fn siginfo_val(bytes: &[u8]) -> Val {
+    if bytes.len() < 16 {
+        return Val::Text("short siginfo".to_string());
+    }
+    let signo = i32::from_ne_bytes(bytes[0..4].try_into().unwrap());
+    let pid = u32::from_ne_bytes(bytes[12..16].try_into().unwrap());
+    // Same formatting as the harness side: Debug of `Signal` and the pid.
+    Val::Text(format!("{:?}/{}", SignalDbg(signo), pid))
+}
+
+struct SignalDbg(i32);
+
+impl std::fmt::Debug for SignalDbg {
+    fn fmt(&self, f: &mut std::fmt::Formatter<'_>) -> std::fmt::Result {
+        // a10's `Signal` is a transparent i32 new type with a Debug impl.
+        let s: a10::process::Signal = unsafe { std::mem::transmute::<i32, a10::process::Signal>(self.0) };
+        s.fmt(f)
+    }
+}
+
+struct IterDropTask<I, P, M, D: FnMut(Pin<Box<I>>)> {
+    iter: Option<Pin<Box<I>>>,
+    poll_next: P,
+    map: M,
+    on_drop: D,
+}
+
+impl<I, T, P, M, D> DynTask for IterDropTask<I, P, M, D>
+where
+    P: FnMut(Pin<&mut I>, &mut Context<'_>) -> Poll<Option<T>>,
+    M: FnMut(T, &mut Vec<Produced>) -> Out,
+    D: FnMut(Pin<Box<I>>),
+{
+    fn poll(&mut self, cx: &mut Context<'_>, produced: &mut Vec<Produced>) -> Poll<Option<Out>> {
+        let iter = self.iter.as_mut().expect("task polled after drop");
+        match alloc::a10(|| (self.poll_next)(iter.as_mut(), cx)) {
+            Poll::Ready(Some(o)) => Poll::Ready(Some(alloc::a10(|| (self.map)(o, produced)))),
+            Poll::Ready(None) => Poll::Ready(None),
+            Poll::Pending => Poll::Pending,
+        }
+    }
+
+    fn is_iter(&self) -> bool {
+        true
+    }
+}
+
+impl<I, P, M, D: FnMut(Pin<Box<I>>)> Drop for IterDropTask<I, P, M, D> {
+    fn drop(&mut self) {
+        if let Some(it) = self.iter.take() {
+            alloc::a10(|| (self.on_drop)(it));
+        }
+    }
+}
+
+unsafe impl<I, P, M, D: FnMut(Pin<Box<I>>)> Send for IterDropTask<I, P, M, D> {}
+
+fn iter_with_drop<I, T, P, M, D>(i: I, poll_next: P, map: M, on_drop: D) -> Box<dyn DynTask>
+where
+    I: 'static,
+    T: 'static,
+    P: FnMut(Pin<&mut I>, &mut Context<'_>) -> Poll<Option<T>> + 'static,
+    M: FnMut(T, &mut Vec<Produced>) -> Out + 'static,
+    D: FnMut(Pin<Box<I>>) + 'static,
+{
+    Box::new(IterDropTask {
+        iter: Some(Box::pin(i)),
+        poll_next,
+        map,
+        on_drop,
+    })
+}
+
 fn io_err<T>(r: std::io::Result<T>) -> Result<T, i32> {
     r.map_err(|e| err_code(&e))
 }
@@ -189,6 +263,67 @@ pub static STATIC_DATA: [u8; 64] = {
     a
 };
 
+/// Drop counters of the tracked buffers created in this run.
+pub static TRACKED: std::sync::Mutex<Vec<Arc<std::sync::atomic::AtomicU32>>> = std::sync::Mutex::new(Vec::new());
+
+/// A user-defined buffer type (the traits are implementable outside a10) that
+/// counts its drops: it must be dropped exactly once, whatever happens to the
+/// operation that owns it.
+pub struct TrackedBuf {
+    data: Vec<u8>,
+    drops: Arc<std::sync::atomic::AtomicU32>,
+}
+
+impl TrackedBuf {
+    pub fn new(data: Vec<u8>) -> TrackedBuf {
+        let drops = alloc::harness(|| {
+            let drops = Arc::new(std::sync::atomic::AtomicU32::new(0));
+            TRACKED.lock().unwrap_or_else(|e| e.into_inner()).push(drops.clone());
+            drops
+        });
+        TrackedBuf { data, drops }
+    }
+}
+
+impl Drop for TrackedBuf {
+    fn drop(&mut self) {
+        self.drops.fetch_add(1, std::sync::atomic::Ordering::AcqRel);
+    }
+}
+
+// SAFETY: the bytes live in a Vec that is only freed when the buffer is dropped.
+unsafe impl a10::io::Buf for TrackedBuf {
+    unsafe fn parts(&self) -> (*const u8, u32) {
+        (self.data.as_ptr(), self.data.len() as u32)
+    }
+}
+
+// SAFETY: as for Vec<u8>: only the spare capacity is handed out.
+unsafe impl a10::io::BufMut for TrackedBuf {
+    unsafe fn parts_mut(&mut self) -> (*mut u8, u32) {
+        let s = self.data.spare_capacity_mut();
+        (s.as_mut_ptr().cast(), s.len() as u32)
+    }
+    unsafe fn set_init(&mut self, n: usize) {
+        unsafe { self.data.set_len(self.data.len() + n) };
+    }
+    fn spare_capacity(&self) -> u32 {
+        (self.data.capacity() - self.data.len()) as u32
+    }
+}
+
+/// Returns (created, dropped more than once, never dropped).
+pub fn tracked_summary() -> (usize, usize, usize) {
+    let t = TRACKED.lock().unwrap_or_else(|e| e.into_inner());
+    let twice = t.iter().filter(|d| d.load(std::sync::atomic::Ordering::Acquire) > 1).count();
+    let never = t.iter().filter(|d| d.load(std::sync::atomic::Ordering::Acquire) == 0).count();
+    (t.len(), twice, never)
+}
+
+pub fn tracked_reset() {
+    TRACKED.lock().unwrap_or_else(|e| e.into_inner()).clear();
+}
+
 /// Everything that exists in a run besides the kernel.
 pub struct World {
     pub ring: Option<a10::Ring>,
@@ -199,6 +334,10 @@ pub struct World {
     pub fds: Vec<Option<Box<AsyncFd>>>,
     pub pools: Vec<ReadBufPool>,
     pub direct_enabled: bool,
+    /// A second ring (for `Ring::pollable`).
+    pub other: Option<a10::Ring>,
+    /// Signal notifiers (real signalfd, reads go to the simulated kernel).
+    pub signals: Vec<Option<Box<a10::process::Signals>>>,
 }
 
 impl World {
@@ -289,6 +428,25 @@ pub enum Kind {
     // Composite.
     WriteAll,
     ReadN,
+    // More buffer types.
+    WriteCow,
+    WriteBoxStr,
+    WriteArcStr,
+    WriteStaticBuf,
+    WriteLimited,
+    WriteTracked,
+    ReadTracked,
+    ReadLimited,
+    ReadVectoredTuple,
+    WriteVectored8,
+    RecvFromVectored,
+    SendToVectored,
+    OpenTemp,
+    // Signals and polling another ring.
+    ReceiveSignal,
+    ReceiveSignals,
+    SignalsToDirect,
+    Pollable,
 }
 
 impl Kind {
@@ -307,7 +465,18 @@ impl Kind {
                 | Kind::Rename
                 | Kind::Waitid
                 | Kind::Madvise
+                | Kind::OpenTemp
+                | Kind::ReceiveSignal
+                | Kind::ReceiveSignals
+                | Kind::SignalsToDirect
+                | Kind::Pollable
         )
+    }
+    pub fn needs_signals(self) -> bool {
+        matches!(self, Kind::ReceiveSignal | Kind::ReceiveSignals | Kind::SignalsToDirect)
+    }
+    pub fn needs_other_ring(self) -> bool {
+        matches!(self, Kind::Pollable)
     }
     pub fn needs_pool(self) -> bool {
         matches!(
@@ -318,13 +487,17 @@ impl Kind {
     pub fn needs_direct_table(self) -> bool {
         matches!(
             self,
-            Kind::OpenDirect | Kind::SocketDirect | Kind::PipeDirect | Kind::ToDirect
+            Kind::OpenDirect | Kind::SocketDirect | Kind::PipeDirect | Kind::ToDirect | Kind::SignalsToDirect
         )
     }
     pub fn is_iter(self) -> bool {
         matches!(
             self,
-            Kind::MultishotAccept | Kind::MultishotRead | Kind::MultishotRecv
+            Kind::MultishotAccept
+                | Kind::MultishotRead
+                | Kind::MultishotRecv
+                | Kind::ReceiveSignals
+                | Kind::Pollable
         )
     }
 }
@@ -385,6 +558,23 @@ pub const ALL_KINDS: &[Kind] = &[
     Kind::MultishotRecv,
     Kind::WriteAll,
     Kind::ReadN,
+    Kind::WriteCow,
+    Kind::WriteBoxStr,
+    Kind::WriteArcStr,
+    Kind::WriteStaticBuf,
+    Kind::WriteLimited,
+    Kind::WriteTracked,
+    Kind::ReadTracked,
+    Kind::ReadLimited,
+    Kind::ReadVectoredTuple,
+    Kind::WriteVectored8,
+    Kind::RecvFromVectored,
+    Kind::SendToVectored,
+    Kind::OpenTemp,
+    Kind::ReceiveSignal,
+    Kind::ReceiveSignals,
+    Kind::SignalsToDirect,
+    Kind::Pollable,
 ];
 
 fn addr_string(bytes: &[u8]) -> String {
@@ -981,6 +1171,196 @@ pub fn make(w: &mut World, kind: Kind, fd: Option<usize>, pool: Option<usize>, t
                     },
                 ),
                 exp(|rec, i, _, _| Val::Bytes(rec.wrote[i].clone())),
+            )
+        }
+        Kind::WriteCow => {
+            let buf: std::borrow::Cow<'static, [u8]> = alloc::res(|| std::borrow::Cow::Owned(payload(len, tag)));
+            let fut_ = alloc::a10(|| f.unwrap().write(buf));
+            (fut(fut_, |o, _| io_err(o).map(|n| Val::N(n as u64))), exp(|_, _, res, _| Val::N(res as u64)))
+        }
+        Kind::WriteBoxStr => {
+            let buf: Box<str> = alloc::res(|| "b".repeat(len).into_boxed_str());
+            let fut_ = alloc::a10(|| f.unwrap().write(buf));
+            (fut(fut_, |o, _| io_err(o).map(|n| Val::N(n as u64))), exp(|_, _, res, _| Val::N(res as u64)))
+        }
+        Kind::WriteArcStr => {
+            let buf: Arc<str> = alloc::res(|| Arc::from("a".repeat(len)));
+            let fut_ = alloc::a10(|| f.unwrap().write(buf));
+            (fut(fut_, |o, _| io_err(o).map(|n| Val::N(n as u64))), exp(|_, _, res, _| Val::N(res as u64)))
+        }
+        Kind::WriteStaticBuf => {
+            let buf = a10::io::StaticBuf::from(&STATIC_DATA[..len.min(64)]);
+            let fut_ = alloc::a10(|| f.unwrap().write(buf));
+            (fut(fut_, |o, _| io_err(o).map(|n| Val::N(n as u64))), exp(|_, _, res, _| Val::N(res as u64)))
+        }
+        Kind::WriteLimited => {
+            use a10::io::Buf;
+            let lim = 1 + tape::choose(site::BUF, len as u32) as usize;
+            let buf = payload(len, tag);
+            let want: Vec<u8> = buf[..lim].to_vec();
+            let fut_ = alloc::a10(|| f.unwrap().write(buf.limit(lim)).extract());
+            (
+                fut(fut_, |o, _| io_err(o).map(|(b, n)| Val::BytesFlags(vec![b.into_inner()], n as i32))),
+                exp(move |rec, _, res, _| {
+                    if rec.described != want.len() || rec.taken != want[..res as usize] {
+                        return Val::Text(format!("kernel was handed {} bytes, limit is {}", rec.described, want.len()));
+                    }
+                    let mut full = want.clone();
+                    full.extend((want.len()..len).map(|i| tag.wrapping_mul(3).wrapping_add(i as u8)));
+                    Val::BytesFlags(vec![full], res)
+                }),
+            )
+        }
+        Kind::WriteTracked => {
+            let buf = alloc::res(|| TrackedBuf::new(payload(len, tag)));
+            let fut_ = alloc::a10(|| f.unwrap().write(buf));
+            (fut(fut_, |o, _| io_err(o).map(|n| Val::N(n as u64))), exp(|_, _, res, _| Val::N(res as u64)))
+        }
+        Kind::ReadTracked => {
+            let buf = alloc::res(|| TrackedBuf::new(new_vec(len, 0, tag)));
+            let fut_ = alloc::a10(|| f.unwrap().read(buf));
+            (
+                fut(fut_, |o, _| io_err(o).map(|b| Val::Bytes(b.data.clone()))),
+                exp(|rec, i, _, _| Val::Bytes(rec.wrote[i].clone())),
+            )
+        }
+        Kind::ReadLimited => {
+            use a10::io::BufMut;
+            let lim = 1 + tape::choose(site::BUF, len as u32) as usize;
+            let buf = new_vec(len, 0, tag);
+            let fut_ = alloc::a10(|| f.unwrap().read(buf.limit(lim)));
+            (
+                fut(fut_, |o, _| io_err(o).map(|b| Val::Bytes(b.into_inner()))),
+                exp(move |rec, i, _, _| {
+                    if rec.described != lim {
+                        return Val::Text(format!("read of {} bytes requested, limit is {lim}", rec.described));
+                    }
+                    Val::Bytes(rec.wrote[i].clone())
+                }),
+            )
+        }
+        Kind::ReadVectoredTuple => {
+            let a = new_vec(1 + len / 3, 0, tag);
+            let b = new_vec(2, 0, tag);
+            let c = new_vec(len, 0, tag);
+            let caps = [a.capacity(), b.capacity(), c.capacity()];
+            let fut_ = alloc::a10(|| f.unwrap().read_vectored((a, b, c)));
+            (
+                fut(fut_, |o, _| io_err(o).map(|(a, b, c)| Val::BytesMulti(vec![a, b, c]))),
+                exp(move |rec, i, _, _| {
+                    let d = &rec.wrote[i];
+                    let mut off = 0;
+                    let mut out = Vec::new();
+                    for cap in caps {
+                        let take = cap.min(d.len() - off);
+                        out.push(d[off..off + take].to_vec());
+                        off += take;
+                    }
+                    Val::BytesMulti(out)
+                }),
+            )
+        }
+        Kind::WriteVectored8 => {
+            let bufs: [Vec<u8>; 8] = std::array::from_fn(|i| payload(if i % 3 == 1 { 0 } else { 1 + (len + i) % 7 }, tag.wrapping_add(i as u8)));
+            let fut_ = alloc::a10(|| f.unwrap().write_vectored(bufs));
+            (fut(fut_, |o, _| io_err(o).map(|n| Val::N(n as u64))), exp(|_, _, res, _| Val::N(res as u64)))
+        }
+        Kind::RecvFromVectored => {
+            let a = new_vec(len, 0, tag);
+            let b = new_vec(5, 0, tag);
+            let ca = a.capacity();
+            let fut_ = alloc::a10(|| f.unwrap().recv_from_vectored::<_, SocketAddr, 2>([a, b]));
+            (
+                fut(fut_, |o, _| io_err(o).map(|([a, b], addr, fl)| Val::BytesAddr(vec![a, b], addr.to_string(), fl))),
+                exp(move |rec, i, _, _| {
+                    let d = &rec.wrote[i];
+                    let na = d.len().min(ca);
+                    Val::BytesAddr(
+                        vec![d[..na].to_vec(), d[na..].to_vec()],
+                        addr_string(&rec.addr_written),
+                        (rec.kid as i32 & 1) * libc::MSG_TRUNC,
+                    )
+                }),
+            )
+        }
+        Kind::SendToVectored => {
+            let a = payload(len, tag);
+            let b = payload(2, tag ^ 0x11);
+            let addr: SocketAddr = ([127, 0, 0, 1], 9100 + u16::from(tag)).into();
+            let fut_ = alloc::a10(|| f.unwrap().send_to_vectored((a, b), addr));
+            (fut(fut_, |o, _| io_err(o).map(|n| Val::N(n as u64))), exp(|_, _, res, _| Val::N(res as u64)))
+        }
+        Kind::OpenTemp => {
+            let path = alloc::res(|| PathBuf::from(format!("/sim/tmpdir{tag}")));
+            let fut_ = alloc::a10(|| a10::fs::OpenOptions::new().write().open_temp_file(sq, path));
+            (
+                fut(fut_, |o, prod| {
+                    io_err(o).map(|fd| {
+                        let (n, d) = take_fd(fd, prod);
+                        Val::Fd(n, d)
+                    })
+                }),
+                exp(|rec, i, _, _| {
+                    let (n, d) = exp_fd(rec, i);
+                    Val::Fd(n, d)
+                }),
+            )
+        }
+        Kind::ReceiveSignal => {
+            let sig: &'static a10::process::Signals = {
+                let b: &a10::process::Signals = w.signals[pool.unwrap()].as_ref().expect("signals alive");
+                // SAFETY: as for descriptors: dropped only after its operations.
+                unsafe { &*(b as *const a10::process::Signals) }
+            };
+            let fut_ = alloc::a10(|| sig.receive());
+            (
+                fut(fut_, |o, _| io_err(o).map(|i| Val::Text(format!("{:?}/{}", i.signal(), i.pid())))),
+                exp(|rec, i, _, _| siginfo_val(&rec.wrote[i])),
+            )
+        }
+        Kind::ReceiveSignals => {
+            let sig = *w.signals[pool.unwrap()].take().expect("signals alive");
+            let it = alloc::a10(|| sig.receive_signals());
+            // Sometimes the notifier is taken back out of the iterator when it
+            // is dropped (hand written drop path).
+            let into_inner = tape::choose(site::BUF, 2) == 1;
+            (
+                iter_with_drop(
+                    it,
+                    |i, cx| i.poll_next(cx),
+                    |o, _| io_err(o).map(|i| Val::Text(format!("{:?}/{}", i.signal(), i.pid()))),
+                    move |it| {
+                        if into_inner {
+                            let it = unsafe { *Pin::into_inner_unchecked(it) };
+                            let signals = it.into_inner();
+                            drop(signals);
+                        } else {
+                            drop(it);
+                        }
+                    },
+                ),
+                exp(|rec, i, _, _| siginfo_val(&rec.wrote[i])),
+            )
+        }
+        Kind::SignalsToDirect => {
+            let sig = *w.signals[pool.unwrap()].take().expect("signals alive");
+            let fut_ = alloc::a10(|| sig.to_direct_descriptor());
+            (
+                fut(fut_, |o, prod| {
+                    io_err(o).map(|s| {
+                        prod.push(Produced::Signals(s));
+                        Val::Unit
+                    })
+                }),
+                exp(|_, _, _, _| Val::Unit),
+            )
+        }
+        Kind::Pollable => {
+            let other = w.other.as_ref().expect("other ring");
+            let it = alloc::a10(|| other.pollable(sq));
+            (
+                iter(it, |i, cx| i.poll_next(cx), |o, _| io_err(o).map(|()| Val::Unit)),
+                exp(|_, _, _, _| Val::Unit),
             )
         }
         Kind::WriteAll => {
